@@ -351,7 +351,20 @@ func runCheck(repo, verif, prop, tier string, keep bool) int {
 		}
 		units = append(units, evUnit{trimPkg(r.Contract.Key), r.File, r.SHA, r.Theory})
 		if len(r.Errors) > 0 {
+			// The unit exists but can no longer be verified against its
+			// contract (a clause no longer binds, or the body left the
+			// subset): every obligation of the unit that was discharged on
+			// the unchanged tree can no longer be established. Reported as a
+			// violation of the obligation `<unit>.verifiable`, without a
+			// failing input (a silent pass would hide, for example, the
+			// removal of the very bookkeeping an invariant speaks about).
 			undecided = append(undecided, fmt.Sprintf("unit %s outside the verified subset: %s", trimPkg(r.Contract.Key), strings.Join(r.Errors, "; ")))
+			if propsContain(r.Contract.Props, prop) {
+				o := &Obligation{Name: r.Contract.Short + ".verifiable", Kind: "unit", Status: "rejected",
+					Output: "the unit could not be verified against its contract: " + strings.Join(r.Errors, "; ")}
+				path := writeReplay(replayDir, prop, o, r, e, "unit rejected: no obligation of it can be re-established; not executed")
+				violLines = append(violLines, fmt.Sprintf("VIOLATION property=%s replay=%s no-failing-input-found", prop, path))
+			}
 		}
 		for _, a := range r.Assumes {
 			assumptions[a] = true
